@@ -7,7 +7,18 @@ S=$(mktemp -d /tmp/econf-mut-XXXXXX)
 trap 'rm -rf "$S"' EXIT
 mkdir -p "$S/repo"
 (cd /repo && tar cf - --exclude=_build --exclude=.git .) | (cd "$S/repo" && tar xf -)
-if [ "$1" = "-e" ]; then
+if [ "$1" = "-r" ]; then
+  # literal replace:  -r <file> <old> <new>   (must match exactly once)
+  python3 - "$S/repo/$2" "$3" "$4" <<'PY'
+import sys
+p, old, new = sys.argv[1:4]
+s = open(p).read()
+if s.count(old) != 1:
+    sys.exit("mut.sh -r: %d matches for %r" % (s.count(old), old))
+open(p, "w").write(s.replace(old, new))
+PY
+  shift 4
+elif [ "$1" = "-e" ]; then
   sed -i -E "$2" "$S/repo/$3"; shift 3
   (cd /repo && diff -u "$OLDPWD/$3" /dev/null >/dev/null 2>&1 || true)
 else
